@@ -7,7 +7,7 @@ LEVEL = "proof"
 MANIFEST = {
     "technique": "Coq proof over a hand-written Gallina model of MdatBox (ReadData/CopyData/Encode/Size, both decode modes), "
                  "io.ReadFull/io.CopyN over an oracle-driven ReadSeeker, File.CopySampleData, DecodeFile's box loop + File.AddChild (segments / fragments) "
-                 "and File.Encode + differential correspondence "
+                 "and File.Encode, MdatBox.EncodeSW / File.EncodeSW over a model of bits.FixedSliceWriter + differential correspondence "
                  "(extracted OCaml vs Go) + failing-input search (file-slice oracle)",
     "level_text": "Theorems (coq/c08/C08Theorems.v), for every file (byte list, length < 2^63), every mdat box lying in it with an "
                   "8- or 16-byte header, every short-read schedule of the ReadSeeker and both empty-read behaviours: "
@@ -45,6 +45,16 @@ MANIFEST = {
                   "short-read schedule); C08_lazy_writer (segmenter -lazy: Encode of an mdat prepared for n bytes ++ ANY n bytes is a well-formed "
                   "mdat box with that payload, 16-byte header iff n > 2^32-9); C08_copy_samples_multitrack (+ Example with DECREASING chunk offsets "
                   "and another track's chunk in between: C08_copy_samples assumes nothing about the order or spacing of chunk offsets). "
+                  "Round 4 (same file; coq/c08/C08SwModel.v, C08SwProofs.v): the SliceWriter encode path, which the model did not have. "
+                  "C08_encode_sw_equal (MdatBox.EncodeSW on a bits.FixedSliceWriter against MdatBox.Encode for ANY mdat box and ANY writer state - "
+                  "capacity, bytes already written, error already accumulated: the bytes fit => no error and exactly Encode's bytes are appended; they do "
+                  "not fit => error and a PROPER prefix of them (whole header fields) was appended; Encode refuses => nothing written; an earlier "
+                  "accumulated error is returned); C08_lazy_encode_sw (the clause `encoding a lazily decoded mdat writes exactly its header` on this "
+                  "path: for every mdat box lying in a file EncodeSW of the lazy box appends the original header bytes and needs only HeaderSize() bytes "
+                  "of room although Size() counts the payload, the in-memory box appends header ++ payload = the box and needs Size() bytes; one byte "
+                  "less: error); C08_file_encode_sw (File.EncodeSW, progressive / EncModeBoxTree, of both decodings of any file that is a sequence of "
+                  "boxes: in memory = the file, needs lenN file = File.Size() bytes; lazy = the file minus every mdat payload and needs only that much "
+                  "- a writer of File.Size() bytes always suffices -; less room: error). "
                   "Only explored (search, not proved): below the top level (Info dump); File.Encode in EncModeSegment of a lazily decoded "
                   "fragmented file = the in-memory output minus the mdat payloads; the sample-reading API on lazily decoded fragments "
                   "(GetFullSamples must fail rather than panic or return other bytes, GetSampleInterval + ReadData/CopyData return the samples' "
@@ -62,7 +72,11 @@ MANIFEST = {
                   "C08_frag_tree_equal: what DecodeFile reads out of non-mdat boxes (stts entry count of the first trak, sidx anchor and "
                   "references) is an input of the model, the same for both modes because the same decoder runs on the same bytes; DecISMFlag "
                   "(findAndReadMfra / tfra) and the senc parsing of moof are not modelled. C08_file_encode: boxes other than mdat are opaque and "
-                  "taken to re-encode to the bytes they were decoded from (C01/C02); EncModeSegment (SetTrunDataOffsets, OptimizeTrun) is search only.",
+                  "taken to re-encode to the bytes they were decoded from (C01/C02); EncModeSegment (SetTrunDataOffsets, OptimizeTrun) is search only. "
+                  "C08_*_encode_sw: bits.FixedSliceWriter is modelled (capacity, bytes written, accumulated error; Write* = one all-or-nothing append), "
+                  "not verified; a non-mdat box's EncodeSW is ONE write of its bytes in the model (the real boxes write field by field: same outcome "
+                  "class and same bytes when they fit; the buffer contents after a failed non-mdat box are not compared); File.EncodeSW in "
+                  "EncModeSegment is search only (EncodeSW into a writer of Size() bytes = Encode, both decode modes).",
 }
 
 
@@ -80,7 +94,8 @@ def run(ctx):
     ctx.cov["trusted_base"] = common.TRUSTED_BASE_COMMON + [
         "model: coq/c08/C08Model.v is a hand transcription of mp4/mdat.go, mp4/box.go (DecodeHeader, EncodeHeaderWithSize, "
         "DecodeBox/DecodeBoxLazyMdat mdat case), mp4/file.go CopySampleData, io.ReadFull, io.CopyN; coq/c08/C08FragModel.v of mp4/file.go "
-        "DecodeFile loop checks, AddChild, startSegmentIfNeeded, mediasegment.go / fragment.go AddChild; coq/c08/C08EncModel.v of File.Encode (children in order)",
+        "DecodeFile loop checks, AddChild, startSegmentIfNeeded, mediasegment.go / fragment.go AddChild; coq/c08/C08EncModel.v of File.Encode (children in order); "
+        "coq/c08/C08SwModel.v of MdatBox.EncodeSW, EncodeHeaderWithSizeSW, File.EncodeSW (children in order) and of bits.FixedSliceWriter.Write*",
         "non-mdat boxes: the values DecodeFile reads out of moov / sidx are recomputed by the harness with the same decoders and handed to the model",
         "the harness's io.ReadSeeker (harness/c08/main.go oRS) is the reader the model describes (rs_read)",
     ]
@@ -128,8 +143,8 @@ def run(ctx):
         key = (p[0], ctxf if p[0] != "F" else "", "\t".join(p[2:]))
         if any(x.startswith("o:") for x in p[2:]):
             distinct.add(key)
-    kinds = {k: sum(1 for l in lines if l.startswith(k + "\t")) for k in ("F", "R", "H", "S", "T", "W", "M", "G", "E", "P")}
-    hyp = {"R": 0, "S": 0, "W": 0, "G": 0, "E": 0}
+    kinds = {k: sum(1 for l in lines if l.startswith(k + "\t")) for k in ("F", "R", "H", "S", "T", "W", "M", "G", "E", "P", "Q", "V")}
+    hyp = {"R": 0, "S": 0, "W": 0, "G": 0, "E": 0, "Q": 0, "V": 0}
     for l, r in zip(lines, res):
         if r.endswith(" H"):
             hyp[l[0]] = hyp.get(l[0], 0) + 1
@@ -140,7 +155,9 @@ def run(ctx):
                                    "cases_satisfying_theorem_hypotheses": {"C08_read_equal (R)": hyp["R"], "C08_copy_samples (S)": hyp["S"],
                                                                            "C08_tree_equal (W)": hyp["W"],
                                                                            "C08_frag_tree_equal (G)": hyp["G"],
-                                                                           "C08_file_encode (E)": hyp["E"]},
+                                                                           "C08_file_encode (E)": hyp["E"],
+                                                                           "C08_lazy_encode_sw (Q)": hyp["Q"],
+                                                                           "C08_file_encode_sw (V)": hyp["V"]},
                                    "panic_outcomes": sum(l.count("\tp") for l in lines),
                                    "error_outcomes": sum(l.count("\te") for l in lines)}
     rl = [l for l in lines if l.startswith("R\t")]
@@ -210,7 +227,14 @@ def run(ctx):
                        "file beyond 4 GiB vs chunk_seg. search also: moof/mdat pairing vs the generator, every sample interval of every fragment "
                        "through GetFullSamples / GetSampleInterval + ReadData / CopyData in both modes, lazy File.Encode (both fragmented encode "
                        "modes) = in-memory output minus payloads, the lazy writer (AddSampleToTrack, Encode, CopySampleData, decode the result), "
-                       "interleaved two-track files x work buffers incl. the interval's byte count +-1, the sparse file" % (n + n // 4 + 1 + n // 2 + 1, exh))
+                       "interleaved two-track files x work buffers incl. the interval's byte count +-1, the sparse file. Round 4: Q = MdatBox.EncodeSW of both "
+                       "decodings of every exhaustively explored mdat into a FixedSliceWriter of EVERY capacity 0..Size()+2 (also holding 1..5 earlier bytes, "
+                       "every seventh with an earlier accumulated error): outcome, sw.Bytes(), AccError() vs C08SwModel; V = File.EncodeSW of both decodings "
+                       "(progressive, multi-mdat, fragmented in box-tree mode) into writers of len(file), len(file)-1, len(file without payloads), that -1, "
+                       "+3, a random capacity and File.Size(); the driver evaluates the hypotheses AND the conclusions of C08_lazy_encode_sw / "
+                       "C08_file_encode_sw on the implementation's answers. search also: EncodeSW(lazy mdat) = the original header with HeaderSize() / Size() "
+                       "/ Size()+5 bytes of room and an error with one byte less; EncodeSW(in-memory mdat) = the box; for every decoded File (both modes, "
+                       "both fragmented encode modes) EncodeSW into a writer of Size() bytes = Encode" % (n + n // 4 + 1 + n // 2 + 1, exh))
 
 
 def hook_search(ctx, exe):
